@@ -18,6 +18,7 @@ CONSTANTS BaseMul = %d
 BaseAdd = %d
 MaxSteps = %d
 NSeq = %d
+Mode = "%s"
 CONSTRAINT Emit
 CHECK_DEADLOCK FALSE
 '''
@@ -175,6 +176,7 @@ CONSTANTS BaseMul = 37
 BaseAdd = 11
 MaxSteps = 2
 NSeq = 1
+Mode = "random"
 INVARIANT FrameLaw
 INVARIANT AliasLaw
 INVARIANT ReadAfterWrite
@@ -190,13 +192,15 @@ def run(ctx):
     ctx.assumptions = ['CartMem.tla states the documented semantics (clip at x,y >= 128 on the sheet, at x > 127 / y > 63 on the map; TRANSPARENT = 16; tile 0 renders empty)',
                        'a silent music channel may be stored as any value 64..127']
     ctx.model_check('CartMem', MC_CFG, name='MC_CartMem', workers=16)
-    nseq, depth = (400, 10) if ctx.quick else (6000, 12)
+    nseq, depth = (300, 10) if ctx.quick else (6000, 12)
     total = 0
-    for mul, add in ((37, 11), (101, 200)) if ctx.quick else ((37, 11), (101, 200), (1, 0), (255, 255)):
-        r = ctx.tlc('CartMem', CFG % (mul, add, depth, nseq), name='GenCartMem_%d' % mul, extra=['-seed', str(ctx.seed + mul)])
+    runs = [((37, 11), 'random', nseq, depth), ((101, 200), 'rmr', nseq, 5)] if ctx.quick else \
+           [((37, 11), 'random', nseq, depth), ((101, 200), 'random', nseq, depth), ((1, 0), 'rmr', nseq * 2, 5), ((255, 255), 'rmr', nseq * 2, 6)]
+    for (mul, add), mode, ns, dp in runs:
+        r = ctx.tlc('CartMem', CFG % (mul, add, dp, ns, mode), name='GenCartMem_%s_%d' % (mode, mul), extra=['-seed', str(ctx.seed + mul)])
         steps = r.jsons
-        if len(steps) != nseq * depth:
-            raise core.MachineryError('CartMem printed %d steps, expected %d' % (len(steps), nseq * depth))
+        if len(steps) != ns * dp:
+            raise core.MachineryError('CartMem printed %d steps, expected %d' % (len(steps), ns * dp))
         good = replay_histories(ctx, steps, mul, add)
         total += len(steps)
         ctx.traces += good
